@@ -1,6 +1,132 @@
-(* Props/C08.v -- property theorems for C08 (a binary profile means exactly its settings). *)
-From XMT Require Import Base.Prelude Model.Cfg Model.CfgSettings Proofs.Cfg.
+(* Props/C08.v -- property theorems for C08: a binary profile built from settings means exactly
+   those settings.
+   Constructor side: Model/CfgSettings.v (`setting` mirrors every public constructor of c2/cfg with
+   its clamping; `enc` = the bytes Bytes() appends, `pack` = Pack, `pack_groups` = AddGroup ...;
+   `interp_step` / `interp_group` / `interp_groups` = the MEANING of a setting list: the profile record
+   a reader of the documentation expects).  Parser side: Model/Cfg.v (next / build / validate /
+   groups / group / marshal, the same definitions the correspondence run evaluates).
+   `wf_setting` = the argument is in its documented domain (byte strings are byte strings, work hours
+   are valid, an AES key is 16/24/32 bytes with a 16 byte IV, XOR key / DNS names / header names are not
+   empty, at most 255 headers); `wf_group` = that for every setting and at most one connector and one
+   transform.  All lengths (hosts, keys, certificates, URLs ... from 0 to beyond the 65535 / 255 clamps),
+   all offsets (`pre` is arbitrary), all groupings are covered: the statements are universally quantified. *)
+From XMT Require Import Base.Prelude Model.Cfg Model.CfgSettings Proofs.Cfg Proofs.CfgSettings Proofs.CfgGroups Proofs.CfgRegress.
 
-Theorem C08_validate_empty : validate [] = Ok tt.
-Proof. exact validate_nil. Qed.
-Print Assumptions C08_validate_empty.
+(* the stride of an encoded setting is its length, wherever it sits in the config (this is the
+   statement the `i + 3 + lo | hi<<8` precedence defect falsified) *)
+Theorem C08_next_enc : forall pre s post, wf_setting s = true -> enc s <> [] ->
+  exists r, next (pre ++ enc s ++ post) (len pre) = Ok r
+            /\ fixn (pre ++ enc s ++ post) (len pre) r = len pre + len (enc s)
+            /\ (post <> [] -> r = len pre + len (enc s)).
+Proof. exact next_enc. Qed.
+Print Assumptions C08_next_enc.
+
+(* one encoded setting, anywhere in a config: stride, not a separator, and build's step reads back its meaning *)
+Theorem C08_setting_roundtrip : forall s, wf_setting s = true -> enc s <> [] -> setting_ok s.
+Proof. exact all_settings_ok. Qed.
+Print Assumptions C08_setting_roundtrip.
+
+(* a nil Setting (Host(""), Sleep(<= 0), Weight(0), KeyPin(empty key)) contributes nothing *)
+Theorem C08_nil_setting : forall s st, enc s = [] -> interp_step s st = st.
+Proof. exact interp_nil. Qed.
+Print Assumptions C08_nil_setting.
+
+(* one group: Build(Pack(ss...)) is the profile the settings mean (certificate / key parsing succeeding) *)
+Theorem C08_build_pack : forall ss, wf_group ss = true -> pack ss <> [] ->
+  build true (pack ss) = Ok (0, [fst (interp_group ss)]).
+Proof. exact build_pack. Qed.
+Print Assumptions C08_build_pack.
+
+(* any grouping through AddGroup: groups that pack to nothing are skipped, one remaining group is a plain
+   profile, otherwise the last non-zero selector and the entries sorted by descending weight (stable) *)
+Theorem C08_build_groups : forall gs, wf_groups gs = true -> build true (pack_groups gs) = Ok (interp_groups gs).
+Proof. exact build_groups. Qed.
+Print Assumptions C08_build_groups.
+
+(* hosts, pinned keys and the wrapper stack are exactly the supplied ones, in the supplied order *)
+Theorem C08_lists_in_order : forall ss,
+  p_hosts (fst (interp_group ss)) = flat_map host_of ss /\
+  p_keys (fst (interp_group ss)) = flat_map key_of ss /\
+  p_wraps (fst (interp_group ss)) = flat_map wrap_of ss.
+Proof. exact group_lists. Qed.
+Print Assumptions C08_lists_in_order.
+
+(* sleep, jitter, weight, kill date, work hours, selector: the last setting of the kind wins *)
+Theorem C08_last_wins : forall ss p z,
+  let r := run ss (p, z) in
+  p_sleep (fst r) = fold_left (fun a s => sleep_step s a) ss (p_sleep p) /\
+  p_jitter (fst r) = fold_left (fun a s => jitter_step s a) ss (p_jitter p) /\
+  p_weight (fst r) = fold_left (fun a s => weight_step s a) ss (p_weight p) /\
+  (p_kds (fst r), p_kill (fst r)) = fold_left (fun a s => kill_step s a) ss (p_kds p, p_kill p) /\
+  p_work (fst r) = fold_left (fun a s => work_step s a) ss (p_work p) /\
+  snd r = fold_left (fun a s => sel_step s a) ss z.
+Proof. exact run_scalars. Qed.
+Print Assumptions C08_last_wins.
+
+(* what the constructors pack is a byte string, so every theorem of C09 applies to it *)
+Theorem C08_packed_is_bytes : forall gs, wf_groups gs = true -> bytes (pack_groups gs).
+Proof. exact pack_groups_bytes. Qed.
+Print Assumptions C08_packed_is_bytes.
+
+(* validation succeeds exactly when building succeeds (certificate / key contents aside) ... *)
+Theorem C08_validate_iff_build : forall gs, wf_groups gs = true ->
+  (validate (pack_groups gs) = Ok tt <-> exists r, build true (pack_groups gs) = Ok r).
+Proof. exact validate_iff_build_pack. Qed.
+Print Assumptions C08_validate_iff_build.
+
+(* ... and for settings in their documented domains both succeed *)
+Theorem C08_validate_pack : forall gs, wf_groups gs = true -> validate (pack_groups gs) = Ok tt.
+Proof. exact validate_pack. Qed.
+Print Assumptions C08_validate_pack.
+
+(* group extraction partitions the bytes at the separators (for ALL byte strings, packed or not):
+   there are Groups() pieces, Group(k) is the k-th, and joined by the separator byte they are the config *)
+Theorem C08_groups_partition : forall c, bytes c -> c <> [] ->
+  let ps := pieces (S (length c)) c 0 0 in
+  groups c = Ok (len ps)
+  /\ (forall k, 0 <= k < len ps -> group c k = Ok (nth (Z.to_nat k) ps []))
+  /\ join_sep ps = c.
+Proof. exact groups_partition_all. Qed.
+Print Assumptions C08_groups_partition.
+
+(* the profile hands back the identical bytes: whenever something was built, MarshalBinary is the source,
+   and it is never anything else *)
+Theorem C08_marshal_is_source : forall tlsok c g e, build tlsok c = Ok (g, e) -> e <> [] -> marshal tlsok c = Ok c.
+Proof. exact marshal_is_source. Qed.
+Print Assumptions C08_marshal_is_source.
+Theorem C08_marshal_only_source : forall tlsok c c', marshal tlsok c = Ok c' -> c' = c.
+Proof. exact marshal_only_source. Qed.
+Print Assumptions C08_marshal_only_source.
+Theorem C08_marshal_pack : forall gs, wf_groups gs = true -> filter keep gs <> [] ->
+  marshal true (pack_groups gs) = Ok (pack_groups gs).
+Proof. exact marshal_pack. Qed.
+Print Assumptions C08_marshal_pack.
+
+(* regressions: the statements above were FALSE for the expressions of the pinned tree (copies of the old
+   definitions in Proofs/CfgRegress.v); each was repaired by its own fix: commit *)
+Theorem C08_old_stride_refuted : exists i hi lo, 0 <= i /\ 0 <= hi < 256 /\ 0 <= lo < 256 /\
+  old_stride16 i 3 hi lo <> i + 3 + w16 hi lo.
+Proof. exact old_stride16_refuted. Qed.
+Print Assumptions C08_old_stride_refuted.
+Theorem C08_old_tlscerts_refuted : exists pem key, old_tlscerts_key pem key = Panic.
+Proof. exact old_tlscerts_refuted. Qed.
+Print Assumptions C08_old_tlscerts_refuted.
+Theorem C08_old_dns_refuted : exists x n i, x = 1 /\ i = 2 /\ n = 10 /\ old_dns_guard x n i = true.
+Proof. exact old_dns_refuted. Qed.
+Print Assumptions C08_old_dns_refuted.
+Theorem C08_old_tlsca_refuted : old_tlsca_guard (len (enc (STLSExCA 0 []))) 0 = true
+  /\ exists r, build true (enc (STLSExCA 0 [])) = Ok r.
+Proof. exact old_tlsca_refuted. Qed.
+Print Assumptions C08_old_tlsca_refuted.
+
+(* non-vacuity: the inputs that failed on the pinned tree are in the domain of the theorems *)
+Example C08_nonvacuous_host_carry :
+  let ss := [SSleep 1000000000; SJitter 1; SHost (pat 511 97 0)] in
+  wf_group ss = true /\ len (pack ss) = 525 /\
+  (exists p, build true (pack ss) = Ok (0, [p]) /\ p_hosts p = [pat 511 97 0] /\ p_sleep p = 1000000000 /\ p_jitter p = 1).
+Proof. vm_compute. repeat split. eexists. repeat split. Qed.
+Example C08_nonvacuous_groups :
+  let gs := [[SHost [111; 110; 101]; SBit 195; SWeight 10; SBit 172]; [SHost []]; [SHost [116; 119; 111]; SDNS [[97; 46; 99]]; STLSExCA 0 []; SWeight 40]] in
+  wf_groups gs = true /\ groups (pack_groups gs) = Ok 3 /\
+  (exists p q, build true (pack_groups gs) = Ok (172, [p; q]) /\ p_weight p = 40 /\ p_weight q = 10).
+Proof. vm_compute. repeat split. do 2 eexists. repeat split. Qed.
